@@ -180,6 +180,7 @@ def run(ctx):
     b += [("dircache-directory-cycle", c05.cache_dir_cycle) for _ in range(10 if ctx.tier == "quick" else 150)]
     b += [("dircache-empty-a-block", c07.block_sweep) for _ in range(4 if ctx.tier == "quick" else 40)]
     b += [("dircache-stress", c07.cache_history) for _ in range(8 if ctx.tier == "quick" else 150)]
+    b += [("dircache-move-across", c07.move_across_history) for _ in range(8 if ctx.tier == "quick" else 120)]
     # exhaustion: error paths give back what they took - and nothing else
     from . import c08
 
